@@ -95,7 +95,10 @@ end TrRC
 def suiteTrRC (kvs : List (String × String)) (lines : List (String × String)) : List String :=
   let n := kvNat kvs "n" 1
   let progs := ((kvGet kvs "ops").getD "").splitOn "/" |>.map TrRC.parseProg
-  (TrRC.conform (Conc.RC.init n progs) (lines.map (·.1))).map fun r => r ++ "\t-"
+  -- a counter restored from JSON starts with a total the rolling sum does not contain
+  let c0 := Conc.RC.init n progs
+  let c0 := { c0 with shared := { c0.shared with total := c0.shared.total + kvInt kvs "pre" 0 } }
+  (TrRC.conform c0 (lines.map (·.1))).map fun r => r ++ "\t-"
 
 /-! ### gauge -/
 namespace TrGauge
